@@ -83,8 +83,141 @@ func GlobalWriteSweep(p *Prog) []string {
 			})
 		}
 	}
+	out = append(out, globalEscapeSweep(p)...)
 	sort.Strings(out)
 	return out
+}
+
+// globalEscapeSweep reports uses of package-level variables of reference type (slice, map, pointer, channel,
+// function) that let the shared object escape or be written through: anything other than indexing for a read,
+// len/cap, range, comparison, a method call on an immutable standard-library object (*regexp.Regexp), or
+// passing it to a read-only byte/string helper. A returned, aliased or passed-on reference is shared mutable
+// state in the hands of the caller.
+func globalEscapeSweep(p *Prog) []string {
+	var out []string
+	refLike := func(t types.Type) bool {
+		if t == nil {
+			return false
+		}
+		if types.Identical(t, types.Universe.Lookup("error").Type()) {
+			return false
+		}
+		switch t.Underlying().(type) {
+		case *types.Slice, *types.Map, *types.Pointer, *types.Chan, *types.Signature:
+			return true
+		}
+		return false
+	}
+	for _, pk := range p.Pkgs {
+		for _, f := range pk.Syntax {
+			fname := p.Fset.Position(f.Pos()).Filename
+			if strings.HasSuffix(fname, "_test.go") || strings.Contains(fname, "/cmd/") || strings.Contains(fname, "/examples/") ||
+				strings.HasSuffix(fname, "test_data.go") || strings.Contains(fname, "/internal/testdata/") {
+				continue
+			}
+			info := pk.TypesInfo
+			var stack []ast.Node
+			ast.Inspect(f, func(n ast.Node) bool {
+				if n == nil {
+					stack = stack[:len(stack)-1]
+					return true
+				}
+				stack = append(stack, n)
+				id, ok := n.(*ast.Ident)
+				if !ok {
+					return true
+				}
+				v, ok := info.Uses[id].(*types.Var)
+				if !ok || v.Pkg() == nil || v.Parent() != v.Pkg().Scope() || !refLike(v.Type()) {
+					return true
+				}
+				if !strings.HasPrefix(v.Pkg().Path(), "github.com/twpayne/go-geom") {
+					// objects owned by other modules (time.UTC ...) are outside this repository's promise
+					return true
+				}
+				if len(stack) < 2 {
+					return true
+				}
+				par := stack[len(stack)-2]
+				// qualified use pkg.Var: look one level further up
+				if sel, ok := par.(*ast.SelectorExpr); ok && sel.Sel == id && len(stack) >= 3 {
+					if _, isPkg := info.Uses[identOf(sel.X)].(*types.PkgName); isPkg {
+						par = stack[len(stack)-3]
+					}
+				}
+				allowed := false
+				switch x := par.(type) {
+				case *ast.IndexExpr:
+					allowed = sameNode(x.X, id)
+				case *ast.RangeStmt:
+					allowed = sameNode(x.X, id)
+				case *ast.BinaryExpr:
+					allowed = x.Op == token.EQL || x.Op == token.NEQ
+				case *ast.CallExpr:
+					if fid, ok := x.Fun.(*ast.Ident); ok && (fid.Name == "len" || fid.Name == "cap") {
+						allowed = true
+					}
+					// the elements are only read: append(dst, g...) / copy(dst, g) with g not the destination
+					if fid, ok := x.Fun.(*ast.Ident); ok && (fid.Name == "append" || fid.Name == "copy") && len(x.Args) >= 2 && !sameNode(x.Args[0], id) {
+						allowed = true
+					}
+					if fsel, ok := x.Fun.(*ast.SelectorExpr); ok {
+						if pn, ok := info.Uses[identOf(fsel.X)].(*types.PkgName); ok {
+							switch pn.Imported().Path() {
+							case "bytes", "strings":
+								allowed = true // read-only helpers (Equal, HasPrefix, ...)
+							}
+						}
+					}
+				case *ast.SelectorExpr:
+					if sameNode(x.X, id) {
+						if nt := namedOf(v.Type()); nt != nil && nt.Obj().Pkg() != nil && nt.Obj().Pkg().Path() == "regexp" {
+							allowed = true
+						}
+					}
+				}
+				if !allowed {
+					ps := p.Fset.Position(id.Pos())
+					out = append(out, fmt.Sprintf("%s:%d: reference-typed package variable %s.%s escapes (%T)", shortFile(ps.Filename), ps.Line, v.Pkg().Name(), v.Name(), par))
+				}
+				return true
+			})
+		}
+	}
+	return out
+}
+
+func identOf(e ast.Expr) *ast.Ident {
+	id, _ := e.(*ast.Ident)
+	return id
+}
+
+func sameNode(e ast.Expr, id *ast.Ident) bool {
+	for {
+		if p, ok := e.(*ast.ParenExpr); ok {
+			e = p.X
+			continue
+		}
+		break
+	}
+	if x, ok := e.(*ast.Ident); ok {
+		return x == id
+	}
+	if s, ok := e.(*ast.SelectorExpr); ok {
+		return s.Sel == id
+	}
+	return false
+}
+
+func namedOf(t types.Type) *types.Named {
+	if p, ok := t.Underlying().(*types.Pointer); ok {
+		t = p.Elem()
+	}
+	if p, ok := t.(*types.Pointer); ok {
+		t = p.Elem()
+	}
+	n, _ := t.(*types.Named)
+	return n
 }
 
 // ReplayProgram builds an in-package Go test from the model of a failed obligation.
